@@ -162,6 +162,9 @@ def in_scope(prop, opname, kind, model_tok=''):
         # totality: what matters is whether model and implementation disagree on panicking / running out of fuel
         # (an implementation panic is a failing verdict of its own); a difference in content belongs elsewhere
         return model_tok.split(';')[0] in ('P', 'F')
+    if prop == 'C05' and kind == 'S':
+        # String() of a sub-editor is CommitAll through all its ancestors, whatever operation produced it
+        return True
     sc = SCOPE.get(prop, ALLOPS)
     return sc is None or opname in sc
 
